@@ -85,8 +85,9 @@ def eff_fsci(cfg):
     return min(cfg["fsci"], 8)
 
 
-def one_exchange(nfc, cfg, apdu, script):
-    """-> (outcome, detail, world-info).  script: dict position -> fate"""
+def one_exchange(nfc, cfg, apdu, script, follow=None):
+    """-> (outcome, detail, world-info).  script: dict position -> fate.  follow: after the exchange a second, different
+    APDU goes to the same card through the same Tag object ('clean': without faults, 'lose_first': its first block is lost)"""
     import nfc.tag.tt4
     with make_world(nfc, cfg) as w:
         tag = w.discover()
@@ -121,6 +122,20 @@ def one_exchange(nfc, cfg, apdu, script):
                     for (i, fn, c, r) in w.device.log if i >= base],
             "wtx_on": [i - base for (i, fn, c, r) in w.device.log if i >= base and c and c[0] == 0xF2],
         }
+        if follow is not None:
+            apdu2 = bytes(apdu[:-1]) + bytes([apdu[-1] ^ 0x5A])
+            base2 = w.device.exchanges
+            w.device.fate = (lambda idx, data: LOSE_CMD if idx == base2 else OK) if follow == "lose_first" else None
+            try:
+                rsp2 = tag.transceive(bytearray(apdu2))
+                out2 = ("ok", bytes(rsp2) if rsp2 is not None else None)
+            except nfc.tag.tt4.Type4TagCommandError as e:
+                out2 = ("tagerror", e.errno)
+            except Exception as e:
+                out2 = ("raised", e)
+            info["follow"] = {"apdu": apdu2, "out": out2, "executed_all": list(w.app.executed),
+                              "log": [(i - base2, fn, (c or b"")[:2].hex(), (r or b"")[:2].hex() if r else None)
+                                      for (i, fn, c, r) in w.device.log if i >= base2][:10]}
         return outcome[0], outcome[1], info
 
 
@@ -184,10 +199,55 @@ def run_one(sim, params):
                 p = sim.randint("pair.p", 0, m + 1)
                 q = p + 1 + sim.choose("pair.dq", 3)
                 scripts.append({p: sim.pick("pair.f", KINDS), q: sim.pick("pair.g", KINDS)})
+    only_follow = params.get("follow")
+    deferred = []
     for script in scripts:
         sim.count("evaluations")
         out, val, info = one_exchange(nfc, cfg, apdu, script)
         check(sim, cfg, apdu, script, out, val, info, desc)
+        if out == "tagerror" and (only is None or only_follow):
+            # the exchange failed: the next APDU through the same Tag object must get its own response or fail too
+            for follow in ([only_follow] if only_follow else ["clean", "lose_first"]):
+                sim.count("evaluations")
+                out, val, info = one_exchange(nfc, cfg, apdu, script, follow)
+                try:
+                    check_follow(sim, cfg, apdu, script, follow, info, desc)
+                except Violation as v:
+                    if v.sig not in core.open_known_sigs(ID):
+                        raise
+                    deferred.append(v)       # a recorded finding does not end the run: the other scripts are judged too
+    if deferred:
+        raise deferred[0]
+
+
+def check_follow(sim, cfg, apdu, script, follow, info, desc):
+    import hashlib
+    f = info["follow"]
+    ov = {"script": sorted(script.items()), "follow": follow}
+    sdesc = ", ".join("%s@%d" % (FATE_NAMES[x], p) for p, x in sorted(script.items()))
+    site = "T4%s" % cfg["tech"]
+    kind, val = f["out"]
+    sim.probe("follow_up.%s.%s" % (follow, kind))
+    ex = f["executed_all"]
+    if ex.count(f["apdu"]) > 1:
+        raise Violation("executed-twice", site + " follow-up", "the APDU sent after a failed exchange was executed %d times; %r"
+                        % (ex.count(f["apdu"]), desc), ov)
+    if kind == "raised":
+        raise Violation("raised", "%s follow-up %s" % (type(val).__name__, core.exc_site(val)),
+                        "the APDU sent after a failed exchange [%s] raised %r; log=%r; %r" % (sdesc, val, f["log"], desc), ov)
+    if kind == "ok":
+        n = desc["rsp_len"]
+        if f["apdu"] not in ex:
+            raise Violation("stale-response", site, "after an exchange that failed under [%s] the next APDU (%s) returned "
+                            "%d bytes although the card never executed it; follow-up log=%r; %r"
+                            % (sdesc, follow, len(val or b""), f["log"], desc), ov)
+        idx = ex.index(f["apdu"]) + 1
+        head = idx.to_bytes(2, "big") + hashlib.sha1(f["apdu"]).digest()[:6]
+        want = (head * (n // 8 + 1))[:n] + b"\x90\x00"
+        if val != want:
+            raise Violation("stale-response", site, "after an exchange that failed under [%s] the next APDU (%s) returned %d "
+                            "bytes that are not the card's response to it (%d bytes); follow-up log=%r; %r"
+                            % (sdesc, follow, len(val or b""), len(want), f["log"], desc), ov)
 
 
 def check(sim, cfg, apdu, script, out, val, info, desc):
